@@ -57,18 +57,7 @@ Definition C13_statement (V : variant) : Prop :=
 Definition C13_full : Prop := C13_statement fixed.
 
 Theorem C13_full_holds : C13_full.
-Proof.
-  intros allow f H Hs. exists (ws_tree f).
-  assert (Ht : wf_rfield true f = true) by (destruct allow; [exact H|apply RelGrammarAccP.wf_rfield_allow, H]).
-  destruct (ws_reparse allow f H Hs) as (Hc & Et & Ep & Estrict & Hacc & Hsame).
-  destruct (ws_tree_idem allow f H Hs) as (Ei1 & Ei2).
-  destruct (ctl_rel_wf f Ht Hs) as (Ec1 & Ec2).
-  split; [apply RelGrammarParseP.parse_rrender, H|]. split; [exact (ws_rtree_of allow f H Hs)|].
-  split; [apply (text_ws_tree allow f H)|].
-  split; [exists (sorted_content (field_wcontent f)); split; [apply (wacc_ws_tree allow f H Hs)|apply (sorted_shape_content allow f H)]|].
-  split; [exists (canon_field f); split; [exact Hc|]; split; [exact Et|]; split; [exact Ep|]; split; [exact Estrict|]; split; [exact Hacc|exact Hsame]|].
-  split; [exact Ei1|]. split; [exists (rtree_of (canon_field f)); split; assumption|]. split; assumption.
-Qed.
+Proof. exact ws_full. Qed.
 Check C13_full_holds : C13_full.
 Print Assumptions C13_full_holds.
 
@@ -80,11 +69,7 @@ Theorem C13_text : forall f : rfield, wf_rfield true f = true -> field_safe f = 
   (* the content being sorted is what the accessors report for f (C10_lossless), with Version values *)
   wacc (rtree_of f) = Ok (field_wcontent f) /\
   map (map wrel_c) (field_wcontent f) = fst (rcontent_acc f).
-Proof.
-  intros f H Hs. split; [|split; [apply (wacc_rtree_of true), H|apply (wcontent_printed true), H]].
-  unfold ws_text, parse_relaxed. rewrite (RelGrammarParseP.parse_rrender true f H), (ws_rtree_of true f H Hs).
-  cbn [rmap bind]. f_equal. apply (text_ws_tree true f H).
-Qed.
+Proof. exact ws_text_wf. Qed.
 Check C13_text : forall f : rfield, wf_rfield true f = true -> field_safe f = true ->
   ws_text fixed (rrender f) =
     Ok (canon_text (map (map wrel_c) (sorted_content (field_wcontent f))) (map subst_text_of (sorted_substs f))) /\
@@ -125,9 +110,7 @@ Theorem C13_meaning : forall allow (f : rfield), wf_rfield allow f = true -> fie
     (allow = false -> relations_from_str (text t') = Ok (rtree_of (canon_field f))) /\
     (exists c, racc (rtree_of (canon_field f)) = Ok c /\ racc_view c = rcontent (canon_field f)) /\
     same_content (rcontent f) (rcontent (canon_field f)).
-Proof.
-  intros allow f H Hs. exists (ws_tree f). split; [apply (ws_rtree_of allow f H Hs)|]. apply (ws_reparse allow f H Hs).
-Qed.
+Proof. exact ws_meaning. Qed.
 Check C13_meaning : forall allow (f : rfield), wf_rfield allow f = true -> field_safe f = true ->
   exists t', relations_ws fixed (rtree_of f) = Ok t' /\
     wf_rfield allow (canon_field f) = true /\
@@ -149,16 +132,7 @@ Theorem C13_idem : forall allow (f : rfield), wf_rfield allow f = true -> field_
        existsb (str_eqb name) (Deb822Wrap.Lit.relation_fields true) = true ->
        Deb822Wrap.format_field Deb822Wrap.fixed (ctl_rel fixed) name (rrender f) = Ok (text t') /\
        Deb822Wrap.format_field Deb822Wrap.fixed (ctl_rel fixed) name (text t') = Ok (text t')).
-Proof.
-  intros allow f H Hs. exists (ws_tree f).
-  assert (Ht : wf_rfield true f = true) by (destruct allow; [exact H|apply RelGrammarAccP.wf_rfield_allow, H]).
-  destruct (ws_reparse allow f H Hs) as (Hc & Et & Ep & _).
-  destruct (ws_tree_idem allow f H Hs) as (Ei1 & Ei2).
-  destruct (ctl_rel_wf f Ht Hs) as (Ec1 & Ec2).
-  split; [apply (ws_rtree_of allow f H Hs)|]. split; [exact Ei1|].
-  split; [exists (rtree_of (canon_field f)); split; assumption|].
-  intros name Hu Hr. unfold Deb822Wrap.format_field. cbn [Deb822Wrap.v_typo Deb822Wrap.fixed]. rewrite Hu, Hr. split; assumption.
-Qed.
+Proof. exact ws_idem_all. Qed.
 Check C13_idem : forall allow (f : rfield), wf_rfield allow f = true -> field_safe f = true ->
   exists t', relations_ws fixed (rtree_of f) = Ok t' /\
     relations_ws fixed t' = Ok t' /\
@@ -180,10 +154,7 @@ Theorem C13_any_tree : forall (t : rtree) (es : list (list wrel)),
     text t' = canon_text (map (map wrel_c) (sorted_content es)) (map text (psort by_text (substvar_nodes t))) /\
     wacc t' = Ok (sorted_content es) /\
     relations_ws fixed t' = Ok t'.
-Proof.
-  intros t es Ha Hs. eexists. split; [apply (relations_ws_spec t es Ha Hs)|]. split; [reflexivity|].
-  split; [apply text_field_tree|]. apply (relations_ws_idem t es _ Ha Hs (relations_ws_spec t es Ha Hs)).
-Qed.
+Proof. exact ws_any_tree. Qed.
 Check C13_any_tree : forall (t : rtree) (es : list (list wrel)),
   wacc t = Ok es -> content_safe es = true ->
   exists t', relations_ws fixed t = Ok t' /\
@@ -199,16 +170,23 @@ Print Assumptions C13_any_tree.
 Theorem C13_order_total_preorder :
   cmp_ok wrel_cmp /\ cmp_ok wentry_cmp /\
   (forall x y z, cmp_le wentry_cmp x y -> cmp_le wentry_cmp y z -> cmp_le wentry_cmp x z) /\
-  (forall x y, cmp_le wentry_cmp x y \/ cmp_le wentry_cmp y x).
-Proof.
-  split; [exact wrel_cmp_ok|]. split; [exact wentry_cmp_ok|]. split.
-  - apply (cle_trans wentry_cmp wentry_cmp_ok).
-  - apply (cle_total wentry_cmp wentry_cmp_ok).
-Qed.
+  (forall x y, cmp_le wentry_cmp x y \/ cmp_le wentry_cmp y x) /\
+  (* ... and it IS the modelled impl Ord, on any two nodes of the safe domain *)
+  (forall a b wa wb, relation_wacc a = Ok wa -> relation_wacc b = Ok wb ->
+     wrel_safe wa = true -> wrel_safe wb = true -> relation_cmp a b = Ok (wrel_cmp wa wb)) /\
+  (forall ea eb wa wb, entry_wacc ea = Ok wa -> entry_wacc eb = Ok wb ->
+     forallb wrel_safe wa = true -> forallb wrel_safe wb = true ->
+     entry_cmp fixed ea eb = Ok (wentry_cmp wa wb)).
+Proof. exact order_total_preorder. Qed.
 Check C13_order_total_preorder :
   cmp_ok wrel_cmp /\ cmp_ok wentry_cmp /\
   (forall x y z, cmp_le wentry_cmp x y -> cmp_le wentry_cmp y z -> cmp_le wentry_cmp x z) /\
-  (forall x y, cmp_le wentry_cmp x y \/ cmp_le wentry_cmp y x).
+  (forall x y, cmp_le wentry_cmp x y \/ cmp_le wentry_cmp y x) /\
+  (forall a b wa wb, relation_wacc a = Ok wa -> relation_wacc b = Ok wb ->
+     wrel_safe wa = true -> wrel_safe wb = true -> relation_cmp a b = Ok (wrel_cmp wa wb)) /\
+  (forall ea eb wa wb, entry_wacc ea = Ok wa -> entry_wacc eb = Ok wb ->
+     forallb wrel_safe wa = true -> forallb wrel_safe wb = true ->
+     entry_cmp fixed ea eb = Ok (wentry_cmp wa wb)).
 Print Assumptions C13_order_total_preorder.
 
 (* The model's sort is the insertion sort Rust uses up to 20 elements.  For a total preorder it
@@ -221,11 +199,7 @@ Theorem C13_sort_contract : forall (A : Type) (cmp : A -> A -> comparison), cmp_
   (forall a, filter (eqv cmp a) (psort cmp l) = filter (eqv cmp a) l) /\
   (forall l', Sorted (cmp_le cmp) l' -> (forall a, filter (eqv cmp a) l' = filter (eqv cmp a) l) -> l' = psort cmp l) /\
   (Sorted (cmp_le cmp) l -> psort cmp l = l).
-Proof.
-  intros A cmp (Ha & He & Ht) l. split; [apply psort_perm|]. split; [apply psort_sorted, Ha|].
-  split; [intros a; apply psort_stable; assumption|]. split; [intros l'; apply stable_sort_unique; assumption|].
-  apply psort_id, Ha.
-Qed.
+Proof. exact psort_contract. Qed.
 Check C13_sort_contract : forall (A : Type) (cmp : A -> A -> comparison), cmp_ok cmp ->
   forall l,
   Permutation l (psort cmp l) /\ Sorted (cmp_le cmp) (psort cmp l) /\
